@@ -56,6 +56,19 @@ def rand_text(r, n=None, alphabet='abcdefghijklmnopqrstuvwxyzABCDEFGHIJKLMNOPQRS
     return ''.join(r.choice(alphabet) for _ in range(n)).encode()
 
 
+def rand_utf8(r):
+    """Text for the fields the standard defines as UTF-8 (user identity): a third of the values
+    hold characters that take 2, 3 or 4 bytes."""
+    base = rand_text(r).decode()
+    if r.random() < 0.35:
+        extra = [r.choice(['\u00e9', '\u00fc', '\u00df', '\u0416', '\u65e5', '\u672c', '\U0001F600'])
+                 for _ in range(r.choice([1, 1, 2, 5]))]
+        chars = list(base) + extra
+        r.shuffle(chars)
+        base = ''.join(chars)
+    return base.encode('utf8')
+
+
 def rand_bytes(r, n=None):
     if n is None:
         n = r.choice([0, 1, 2, 3]) if r.random() < 0.4 else r.randrange(0, 40)
@@ -83,8 +96,8 @@ def gen_sub(r, kind=None, rsv=None):
         return {'type': 0x56, 'rsv': rsv, 'uid': rand_uid(r), 'appinfo': rand_bytes(r)}
     if kind == 0x58:
         return {'type': 0x58, 'rsv': rsv, 'idtype': pick_int(r, U8, 255),
-                'posrsp': pick_int(r, U8, 255), 'primary': rand_text(r),
-                'secondary': rand_text(r)}
+                'posrsp': pick_int(r, U8, 255), 'primary': rand_utf8(r),
+                'secondary': rand_utf8(r)}
     if kind == 0x59:
         return {'type': 0x59, 'rsv': rsv, 'response': rand_text(r)}
     return {'type': r.choice(GENERIC_TYPES), 'rsv': rsv, 'data': rand_bytes(r)}
